@@ -44,6 +44,7 @@ type procObs struct {
 	Recvs        []procRecv `json:"recvs"`
 	Events       []any      `json:"events"`
 	Pills        []procPill `json:"pills"`
+	Sends        []int      `json:"sends"`
 	Escaped      bool       `json:"escaped"`
 	Hang         bool       `json:"hang"`
 	SpawnStarted bool       `json:"spawn_started"`
@@ -69,6 +70,7 @@ type procWorld struct {
 	recvs   []procRecv
 	events  []any
 	pills   []*pillRec
+	sends   []int
 	incs    int
 	started bool
 	chainAt []int // middleware ids entered for the delivery in progress
@@ -107,6 +109,12 @@ func (w *procWorld) lookup(inc int, key any) [][]any {
 		}
 	}
 	return nil
+}
+
+func (w *procWorld) sent(n int) {
+	w.mu.Lock()
+	w.sends = append(w.sends, n)
+	w.mu.Unlock()
 }
 
 func (w *procWorld) newPill(ctx context.Context) {
@@ -159,8 +167,10 @@ func (s *scripted) Receive(c *actor.Context) {
 	for _, a := range w.lookup(s.inc, key) {
 		switch a[0].(string) {
 		case "send":
+			w.sent(int(a[1].(float64)))
 			c.Send(c.PID(), userMsg{int(a[1].(float64))})
 		case "sendnil":
+			w.sent(int(a[1].(float64)))
 			c.Engine().Send(c.PID(), userMsg{int(a[1].(float64))})
 		case "poison":
 			w.newPill(c.Engine().Poison(c.PID()))
@@ -261,6 +271,7 @@ func runProc(raw json.RawMessage) (any, error) {
 		defer w.mu.Unlock()
 		obs.Recvs = append([]procRecv{}, w.recvs...)
 		obs.Events = append([]any{}, w.events...)
+		obs.Sends = append([]int{}, w.sends...)
 		for _, p := range w.pills {
 			done := p.ctx.Err() != nil
 			if done {
@@ -322,6 +333,7 @@ func runProc(raw json.RawMessage) (any, error) {
 	for _, op := range c.Ops {
 		switch op[0].(string) {
 		case "send":
+			w.sent(int(op[1].(float64)))
 			e.Send(target, userMsg{int(op[1].(float64))})
 		case "poison":
 			w.newPill(e.Poison(target))
